@@ -81,6 +81,16 @@ fn c06_decoder_empty_and_colour() {
         Err(_) => assert!(false),
     }
     core::mem::forget(r);
+    // a dark colour: components in the control-code range still count as the
+    // three escape bytes; the text after the escape is kept
+    let data = [9u8, b'A', 0x1b, 0xFF, 0x01, 0x01, b'R', b'e', b'd', 0];
+    let mut b = Buffer::<LittleEndian>::new(&data);
+    let r = b.read_string::<Unreal2StringDecoder>(None);
+    match &r {
+        Ok(s) => assert!(s == "ARed" && b.current_position() == 10),
+        Err(_) => assert!(false),
+    }
+    core::mem::forget(r);
 }
 
 /// UCS-2 string: 0x80 | units, then UTF-16LE units.
